@@ -112,20 +112,20 @@ def existsItemL (l : LSeq) : Except Err Bool :=
     | some e => .error e
 
 /-- functions applied to a lazily delivered argument -/
-def applyFn1L (sm : Summation) (doc : List String) (f : Fn1) (l : LSeq) : LSeq :=
+def applyFn1L (sm : Summation) (cl : Coll) (doc : List String) (f : Fn1) (l : LSeq) : LSeq :=
   match f with
   | .head => headL l
   | .exists_ => LSeq.ofR ((existsItemL l).map fun b => [.bool b])
   | .empty => LSeq.ofR ((existsItemL l).map fun b => [.bool (!b)])
   | .tail => l.stream tail
-  | .distinct => l.stream fun s => distinctValues (s.map (atomized doc))
+  | .distinct => l.stream fun s => distinctValues cl (s.map (atomized doc))
   | .oneOrMore =>
     match l.items with
     | [] => LSeq.ofR (l.force.bind oneOrMore)
     | _ => l
   | .not_ => LSeq.ofR ((ebvL l).map fun b => [.bool (!b)])
   | .boolean => LSeq.ofR ((ebvL l).map fun b => [.bool b])
-  | f => LSeq.ofR (l.force.bind (applyFn1 sm doc f))
+  | f => LSeq.ofR (l.force.bind (applyFn1 sm cl doc f))
 
 /-- fn:insert-before on a lazily delivered target: the inserts are delivered once the position is
 reached (or the target ends without error) -/
@@ -176,19 +176,19 @@ def lz (sm : Summation) : Expr → Ctx → LSeq
   | .forE bs r, c => lzFor sm bs c (fun c' => lz sm r c')
   | .someE bs t, c => LSeq.ofR ((lzSome sm bs c (fun c' => ebvL (lz sm t c'))).map fun b => [.bool b])
   | .everyE bs t, c => LSeq.ofR ((lzEvery sm bs c (fun c' => ebvL (lz sm t c'))).map fun b => [.bool b])
-  | .fn1 f a, c => applyFn1L sm c.doc f (lz sm a c)
+  | .fn1 f a, c => applyFn1L sm c.coll c.doc f (lz sm a c)
   | .fn2 f a b, c =>
     match f with
     | .stringJoin => LSeq.ofR (do
         let va ← (lz sm a c).force
         let vb ← (lz sm b c).force
-        applyFn2 sm c.doc f va vb)
+        applyFn2 sm c.coll c.doc f va vb)
     | .sum => LSeq.ofR (do
         let va ← (lz sm a c).force
         if va.length = 0 then
           let vb ← (lz sm b c).force
-          applyFn2 sm c.doc f va vb
-        else applyFn1 sm c.doc .sum va)
+          applyFn2 sm c.coll c.doc f va vb
+        else applyFn1 sm c.coll c.doc .sum va)
     | .remove =>
       match (lz sm b c).force.bind asInteger with
       | .error x => ⟨[], some x⟩
@@ -196,7 +196,7 @@ def lz (sm : Summation) : Expr → Ctx → LSeq
     | .indexOf =>
       match (lz sm b c).force with
       | .error x => ⟨[], some x⟩
-      | .ok [x] => (lz sm a c).stream fun s => indexOf (s.map (atomized c.doc)) (atomized c.doc x)
+      | .ok [x] => (lz sm a c).stream fun s => indexOf c.coll (s.map (atomized c.doc)) (atomized c.doc x)
       | .ok _ => ⟨[], some .XPTY0004⟩
     | .subseq =>
       match (lz sm b c).force.bind asRoundedDouble with
